@@ -145,7 +145,16 @@ def input_cycles():
             ("default {} on a wrapper of every cycle", "mutation M($w: Wrap = {}) { m(w: $w) }\n"),
             ("default {n: {}, o: {}} on a wrapper", "mutation M($w: Wrap = {n: {}, o: {}, r: {}, list: [{}]}) { m(w: $w) }\n"),
             ("default on oneOf cycle", "mutation M($oo: OO = {a: {a: {b: 1}}}) { m(oo: $oo) }\n"),
-            ("default list of objects", "mutation M($ws: [Wrap!] = [{}, {n: {}}]) { m }\n")]
+            ("default list of objects", "mutation M($ws: [Wrap!] = [{}, {n: {}}]) { m }\n"),
+            # a single value where a list is declared (GraphQL coerces it to a one-element list; the generator may refuse it, it
+            # must not chase it)
+            ("single scalar default for a list variable", "query Q($ids: [Int!] = 1) { x }\n"),
+            ("single scalar default for a nested list variable", "query Q($ids: [[Int]] = 1) { x }\n"),
+            ("single object default for a list variable", "mutation M($ws: [Wrap!] = {}) { m }\n"),
+            ("single object for a list member inside a default", "mutation M($w: Wrap = {list: {}}) { m(w: $w) }\n"),
+            ("single object for a list member on a cycle inside a default", "mutation M($i: RI = {list: {me: {}}}) { m(i: $i) }\n"),
+            ("null default for a list variable", "query Q($ids: [Int!] = null) { x }\n"),
+            ("enum-like bare word default for a list variable", "query Q($ids: [Int!] = RED) { x }\n")]
 
 
 def degenerate():
